@@ -9,11 +9,35 @@
      a non-failing source yields at most `length` items followed by the end marker — no fuel, no I/O
      item, the cap is never what stops it; `io_error_faulty`: an I/O error implies a failing source.
   (Agreement of the four iteration styles: `C10_streams` in Props/C10.)
+  Fully proved (LexprModel/Proofs/Trivia.lean with TriviaBase, TriviaBytes, TriviaRel; imported here;
+  namespace Lexpr.Parse.ListRT), the trivia clause at parser level: `TV p ryu v t` — `t` is the text
+  the printer `p` writes for `v` with an arbitrary trivia string (whitespace bytes and complete line
+  comments) inserted at every token boundary, non-empty where the printer writes a space, also
+  inside byte vectors; `trivia_structure`, `C12_trivia`, `C12_trivia_plain`, `C12_trivia_eq`,
+  `C12_trivia_printT`: for every compatible printer/parser option pair and every value plain for
+  the pair, every trivia variant (with leading trivia and a possibly unterminated final comment)
+  reads as the same value as the plain text — inserting or changing trivia never changes a value.
+  Fully proved (LexprModel/Proofs/Concat.lean with ConcatBase, ConcatDatum, ConcatSources, ConcatTrivia;
+  imported here; namespace Lexpr.Parse.Concat), the concatenation clause: `C12_concat` — for every
+  compatible printer/parser pair, any list of values plain for the pair, leading trivia, trivia
+  separators (`SepsOK`: a separator may be empty only at the very start, after a pair / vector / `()`
+  or before a text starting with a delimiter — `empty_separator_merges`, `octothorpe_vector_needs_separator`
+  and `string_after_symbol_needs_separator` show the restriction is needed) and final trivia whose last
+  comment may lack its newline: `next_value` loop, `value_iter` and `Iterator for Parser` yield exactly the
+  (folded) values in order, then end of input on every further call, with the depth budget back at 128
+  and the unread input after the i-th call exactly the text after the i-th value;
+  `C12_concat_default` (default options: the values themselves), `C12_concat_datum` (`next_datum`,
+  `datum_iter`), `C12_concat_io`, `C12_concat_str` (stream and &str sources), `C12_concat_trivia`
+  (each value written with arbitrary trivia inside, combining both clauses).
   Proved here in addition: the lexer-level trivia theorem — any string of whitespace and complete line comments
   in front of a token is skipped entirely, whatever it contains — and that every trivia byte ends a
   symbol in both symbol scanners (the defect class behind `foo<FF>bar`).
 -/
 import LexprModel.Proofs.Progress
+import LexprModel.Proofs.Trivia
+import LexprModel.Proofs.ConcatSources
+import LexprModel.Proofs.ConcatTrivia
+import LexprModel.Proofs.ConcatDatum
 namespace Lexpr
 namespace Parse
 
@@ -71,6 +95,47 @@ theorem C12_trivia_terminates_symbols (b : UInt8) (h : isTrivia b = true ∨ b =
   · simp only [isTrivia, Bool.or_eq_true, beq_iff_eq] at h
     rcases h with (((h | h) | h) | h) | h <;> subst h <;> decide
   · subst h; decide
+
+/-- the trivia of this file and of `Proofs/Trivia.lean` are the same strings -/
+theorem trivia_iff (t : List UInt8) : Trivia t ↔ ListRT.Triv t := by
+  constructor
+  · intro h; induction h with
+    | nil => exact .nil
+    | ws b t hb _ ih => exact .ws b t hb ih
+    | comment body t hb _ ih => exact .comment body t hb ih
+  · intro h; induction h with
+    | nil => exact .nil
+    | ws b t hb _ ih => exact .ws b t hb ih
+    | comment body t hb _ ih => exact .comment body t hb ih
+
+/-- **C12_trivia_insensitive** (the trivia clause of the property): for every compatible
+    printer/parser option pair, every value that is plain for the pair (nesting at most 127), every
+    assignment `τ` of trivia strings to the token boundaries of its printed text, any leading trivia and
+    any final trivia (whose last comment may lack its newline): parsing the text with trivia gives
+    exactly what parsing the printed text gives, namely the (folded) value. -/
+theorem C12_trivia_insensitive (cfg : Cfg) (p : Print.Options) (ryu : Nat → List UInt8)
+    (hc : Spec.Compatible p cfg.opts = true) (v : Value) (h : ListRT.AllPlainFor p cfg v)
+    (hn : ListRT.nestingP p v ≤ 127) (τ : Nat → List UInt8) (hτ : ∀ i, Trivia (τ i))
+    (lead trail : List UInt8) (hl : Trivia lead) (ht : ListRT.TrivEnd trail) :
+    ListRT.okValue (fromTrait cfg (initSt .slice (lead ++ (ListRT.textT τ p ryu v ++ trail)))) =
+      ListRT.okValue (fromTrait cfg (initSt .slice (Print.text p ryu v))) ∧
+    ListRT.okValue (fromTrait cfg (initSt .slice (lead ++ (ListRT.textT τ p ryu v ++ trail)))) =
+      some (Spec.fold p cfg.opts v) :=
+  ListRT.C12_trivia_printT cfg p ryu hc v h hn τ (fun i => (trivia_iff _).1 (hτ i)) lead trail
+    ((trivia_iff _).1 hl) ht
+
+/-- **C12_concatenation** (the concatenation clause of the property, default dialect): parsing the
+    concatenation of printed values separated by trivia yields exactly those values, in order, then end
+    of input — by the `next_value` loop, `value_iter` or `Iterator for Parser` alike. -/
+theorem C12_concatenation (cfg : Cfg) (ho : cfg.opts = Parse.Options.default) (ryu : Nat → List UInt8)
+    (op : Op) (hop : Concat.ValueOp op) (items : List (List UInt8 × Value)) (tEnd : List UInt8)
+    (hall : ∀ it ∈ items, ListRT.AllPlainFor Print.Options.default cfg it.2 ∧
+      ListRT.nestingP Print.Options.default it.2 ≤ 127)
+    (hs : Concat.SepsOK Print.Options.default ryu true items) (hE : Concat.TriviaEnd tEnd) :
+    iterate cfg op (items.length + 1)
+        (initSt .slice (Concat.concatText Print.Options.default ryu items ++ tEnd)) =
+      items.map (fun it => Item.value it.2) ++ [.none_] :=
+  (Concat.C12_concat_default cfg ho ryu op hop items tEnd hall hs hE).1 (items.length + 1) (Nat.le_refl _)
 
 example : Trivia (asc " \t;c (\n\x0c") := by
   refine .ws 32 _ (by decide) (.ws 9 _ (by decide) ?_)
